@@ -968,7 +968,11 @@ namespace bxdecay0 {
       e1_min     = _pimpl_->tab_prob.energies[ie1_found - 1];
       cprob1_min = _pimpl_->tab_prob.e1_cprobs[ie1_found - 1];
     }
-    double re1 = (e1_rand - cprob1_min) / (cprob1_max - cprob1_min);
+    // A cell of zero probability width is only selected by a deviate equal to its bounds:
+    double re1 = 0.0;
+    if (cprob1_max > cprob1_min) {
+      re1 = (e1_rand - cprob1_min) / (cprob1_max - cprob1_min);
+    }
     e1_        = e1_min + (e1_max - e1_min) * re1;
     // e1_ = e1_max;
     // if (e1_ < 0.0) {
@@ -988,7 +992,10 @@ namespace bxdecay0 {
       e2_min     = _pimpl_->tab_prob.energies[je2_found - 1];
       cprob2_min = sampled_e2cdf[je2_found - 1];
     }
-    double re2 = (e2_rand - cprob2_min) / (cprob2_max - cprob2_min);
+    double re2 = 0.0;
+    if (cprob2_max > cprob2_min) {
+      re2 = (e2_rand - cprob2_min) / (cprob2_max - cprob2_min);
+    }
     e2_        = e2_min + (e2_max - e2_min) * re2;
     // e2_ = e2_max;
     // if (e2_ < 0.0) {
